@@ -22,6 +22,8 @@ TOPO = {
     # Heronian triangle (sides 13, 14, 15, rotated by the rational rotation (3/5, 4/5), scaled by 1/16): all edge lengths
     # and unit normals are rational, so globally defined elements (which normalise normals) stay in exact arithmetic
     'tri1heron': ('MeshTri1', [[0.0, 0.525, -0.4125], [0.0, 0.7, 0.7]], [[0], [1], [2]]),
+    # two Heronian triangles (13, 14, 15) sharing the edge of length 14, same rational rotation and scale
+    'tri2heron': ('MeshTri1', [[-0.4125, 0.0, 0.525, 0.9375], [0.7, 0.0, 0.7, 0.0]], [[0, 1], [1, 2], [2, 3]]),
     'tri2': ('MeshTri1', [[0.0, 1.0, 0.09375, 1.125], [0.0, 0.0625, 0.90625, 1.0625]], [[0, 1], [1, 2], [2, 3]]),
     'tri2perm': ('MeshTri1', [[1.125, 0.09375, 0.0, 1.0], [1.0625, 0.90625, 0.0, 0.0625]], [[3, 1], [2, 3], [1, 0]]),
     'tri3fan': ('MeshTri1', [[0.0, 1.0, 0.09375, 1.125, -0.84375], [0.0, 0.0625, 0.90625, 1.0625, 0.5625]],
@@ -159,8 +161,61 @@ def validity(h, cls, P, t):
                         for y in b:
                             h.assume(orient(P, sh, P[:, x]) * orient(P, sh, P[:, y]) < 0)
         return
-    # hexahedra / wedges: numeric or partly symbolic geometry only; no symbolic validity predicate
+    # hexahedra / wedges (numeric or partly symbolic geometry): Jacobian determinant of one sign at the corners and the centre
+    if cls in ('MeshHex1', 'MeshWedge1', 'MeshHex2'):
+        import skfem
+        from .astdiff import dsym
+        refdom = getattr(skfem, cls).elem.refdom
+        R = np.asarray(refdom.p, dtype=float)
+        nn = R.shape[1]
+        X = [Sym.var('Xv!%d' % k) for k in range(3)]
+        for k in range(nt):
+            cell = t[:nn, k]
+            if all(tosym(P[i, v]).c is not None for i in range(3) for v in cell):
+                continue
+            lam = ref_weights(refdom, X)
+            x = [sum(lam[a] * P[dd, cell[a]] for a in range(nn)) for dd in range(3)]
+            J = np.empty((3, 3), dtype=object)
+            for j in range(3):
+                cache = {}       # one cache per differentiation variable
+                for i in range(3):
+                    J[i, j] = dsym(x[i], X[j], cache)
+            detX = tosym(det_obj(J))
+            pts = [R[:, a] for a in range(nn)] + [R.mean(axis=1)]
+            vals = []
+            import z3
+            for pt in pts:
+                sub = z3.substitute(detX.a, *[(X[j].a, z3.RealVal(str(float(pt[j])))) for j in range(3)])
+                vals.append(Sym(z3.simplify(sub)))
+            h.assume(h.Or(h.And(*[v > 0 for v in vals]), h.And(*[v < 0 for v in vals])))
     return
+
+
+def ref_weights(refdom, X):
+    """Vertex weights lam_a(X) of the reference map built from refdom.p (affine / multilinear / prism)."""
+    name = refdom.__name__
+    R = np.asarray(refdom.p, dtype=float)
+    dim = R.shape[0]
+    lam = []
+    if name in ('RefLine', 'RefTri', 'RefTet'):
+        for a in range(R.shape[1]):
+            if np.allclose(R[:, a], 0):
+                lam.append(1 - sum(X[k] for k in range(dim)))
+            else:
+                lam.append(X[int(np.argmax(R[:, a]))])
+    elif name in ('RefQuad', 'RefHex'):
+        for a in range(R.shape[1]):
+            w = 1
+            for k in range(dim):
+                w = w * (X[k] if R[k, a] == 1 else (1 - X[k]))
+            lam.append(w)
+    elif name == 'RefWedge':
+        for a in range(R.shape[1]):
+            tri = (1 - X[0] - X[1]) if (R[0, a] == 0 and R[1, a] == 0) else (X[0] if R[0, a] == 1 else X[1])
+            lam.append(tri * (X[2] if R[2, a] == 1 else (1 - X[2])))
+    else:
+        raise ValueError(name)
+    return lam
 
 
 def make_mesh(h, name, var='p', free=None, cls=None, pt=None, validity_assumptions=True, **mesh_kw):
